@@ -14,6 +14,7 @@ import time as _time
 from _thread import get_ident as _get_ident
 
 _real_Popen = subprocess.Popen
+_real_setitimer, _real_signal, _real_getsignal = signal.setitimer, signal.signal, signal.getsignal
 TimeoutExpired = subprocess.TimeoutExpired
 PIPE, DEVNULL, STDOUT = subprocess.PIPE, subprocess.DEVNULL, subprocess.STDOUT
 
@@ -126,7 +127,7 @@ class StepClock:
         if self.limit is not None and self.n > self.limit:
             self.exhausted = True
             raise StepBudget("step budget exhausted (%d events)" % self.n)
-        if self.sched is not None and self.sched.multi:
+        if self.sched is not None and (self.sched.multi or self.sched.alarm_at is not None):
             self.sched.on_step(code)
 
     def _on_cpu(self, signum, frame):
@@ -134,16 +135,16 @@ class StepClock:
             return
         self.exhausted = True
         # re-arm so that a handler somewhere that swallows BaseException cannot carry on for long
-        signal.setitimer(signal.ITIMER_VIRTUAL, 1.0)
+        _real_setitimer(signal.ITIMER_VIRTUAL, 1.0)
         raise StepBudget("CPU guard: %.0f s of CPU time in one call" % self.cpu_guard_s)
 
     def begin(self, budget):
         self.exhausted = False
         self.limit = self.n + budget
-        signal.setitimer(signal.ITIMER_VIRTUAL, self.cpu_guard_s)
+        _real_setitimer(signal.ITIMER_VIRTUAL, self.cpu_guard_s)
 
     def end(self):
-        signal.setitimer(signal.ITIMER_VIRTUAL, 0)
+        _real_setitimer(signal.ITIMER_VIRTUAL, 0)
         self.limit = None
 
 
@@ -724,7 +725,42 @@ def install(world, step_monitoring):
         _posixsubprocess.fork_exec = _unmodelled("_posixsubprocess.fork_exec")
     except ImportError:
         pass
-    signal.alarm = _unmodelled("signal.alarm")
+    # SIGALRM in virtual time: alarm()/setitimer(ITIMER_REAL) arm a timer the scheduler owns; the handler runs in the
+    # main thread at the next scheduling point at or after the expiry (between two bytecodes, as a real handler would)
+    sch = world.sched
+
+    def sim_alarm(seconds):
+        left = sch.alarm_left()
+        sch.set_alarm(float(seconds) if seconds else None, 0.0)
+        return int(left + 0.999999) if left else 0
+
+    def sim_setitimer(which, seconds, interval=0.0):
+        if which != signal.ITIMER_REAL:
+            raise Unmodelled("signal.setitimer(%r)" % (which,))
+        left = sch.alarm_left()
+        old = (left, sch.alarm_interval)
+        sch.set_alarm(float(seconds) if seconds else None, float(interval or 0.0))
+        return old
+
+    def sim_getitimer(which):
+        if which != signal.ITIMER_REAL:
+            return (0.0, 0.0)
+        return (sch.alarm_left(), sch.alarm_interval)
+
+    def sim_signal(signum, handler):
+        if signum == signal.SIGALRM:
+            old = sch.alarm_handler
+            sch.alarm_handler = handler
+            return old if old is not None else signal.SIG_DFL
+        return _real_signal(signum, handler)
+
+    def sim_getsignal(signum):
+        if signum == signal.SIGALRM:
+            return sch.alarm_handler if sch.alarm_handler is not None else signal.SIG_DFL
+        return _real_getsignal(signum)
+
+    signal.alarm, signal.setitimer, signal.getitimer = sim_alarm, sim_setitimer, sim_getitimer
+    signal.signal, signal.getsignal = sim_signal, sim_getsignal
     sc = StepClock(use_monitoring=step_monitoring)
     sc.install()
     sc.sched = world.sched
